@@ -78,6 +78,7 @@ def gen(base: str, tier: str, W):
         for b in alphabet.W2:
             yield ("country-field-w2", base[:4] + a + b + base[6:])
     yield ("all-lower", base.lower())
+    yield from families.token_overlays(base)
     if tier == "thorough":
         yield from families.double_subst(base)
         if len(base) == 11:
@@ -93,6 +94,8 @@ def gen(base: str, tier: str, W):
 
 
 def shard(args):
+    if args[0] == "after-activity":
+        return after_activity_shard(args)
     base, tier = args
     part = par.Part()
     W = alphabet.wide(thorough=(tier == "thorough"))
@@ -117,6 +120,27 @@ def shard(args):
     return part.done()
 
 
+def after_activity_shard(args):
+    """One process: the API prelude (which reads .country, .bic, ... of IBANs of every country of
+    the table, Kosovo included), then the country-field family and single edits of two bases."""
+    from ..engine import activity
+    _, tier = args
+    part = par.Part()
+    part.stat("prelude_calls", activity.exercise_api(report.SEED))
+    small = ["0", "A", "a", "-", " ", "٣", "_"]
+    for base in ("GENODEM1", "MARKDEF1100"):
+        for fam, text in gen(base, "quick", small):
+            part["evals"] += 4
+            part.foreign.add("after:" + text)
+            ok, sig, exp, obs = judge(text)
+            if not ok:
+                part.violation(f"{sig} [{fam.split(':')[0]}, after API activity]",
+                               {"kind": "bic_text", "text": text, "how": f"{fam} from base {base}, after "
+                                "the API prelude"}, exp, obs)
+    part.stat("after_activity_shards")
+    return part.done()
+
+
 def replay(case: dict) -> dict:
     ok, sig, exp, obs = judge(case["text"])
     return {"ok": ok, "signature": sig, "expected": exp, "observed": obs}
@@ -125,7 +149,7 @@ def replay(case: dict) -> dict:
 def main(tier: str) -> int:
     run = report.Run(PID, tier, "exploration", RULE)
     bs = bases()
-    par.run_shards(run, shard, [(b, tier) for b in bs])
+    par.run_shards(run, shard, [("after-activity", tier)] + [(b, tier) for b in bs])
     run.extra.update({"bases": bs, "alphabet_size": len(alphabet.wide(tier == "thorough")),
                       "entry_points_per_text": 4,
                       "iso_country_codes": len(reg.iso_countries()),
